@@ -484,21 +484,39 @@ func c10Fallback(c *Ctx) {
 	fn := c.Func("db", "(*DataReader).FindLocation")
 	c.Examined(fn)
 	var res, ecsCall ssa.CallInstruction
-	for _, ci := range callInstrs(fn) {
-		cc := ci.Common()
-		if cc.IsInvoke() || cc.StaticCallee() != nil {
-			name := ""
-			if cc.IsInvoke() {
-				name = cc.Method.Name()
-			} else {
-				name = cc.StaticCallee().Name()
+	// the two lookups are in FindLocation itself or in a function literal of it (the work handed to a panic guard)
+	outer := fn
+	var cands []*ssa.Function
+	var collect func(f *ssa.Function)
+	collect = func(f *ssa.Function) {
+		cands = append(cands, f)
+		for _, a := range f.AnonFuncs {
+			collect(a)
+		}
+	}
+	collect(outer)
+	for _, cand := range cands {
+		var r, e ssa.CallInstruction
+		for _, ci := range callInstrs(cand) {
+			cc := ci.Common()
+			if cc.IsInvoke() || cc.StaticCallee() != nil {
+				name := ""
+				if cc.IsInvoke() {
+					name = cc.Method.Name()
+				} else {
+					name = cc.StaticCallee().Name()
+				}
+				switch name {
+				case "ResolverLocation":
+					r = ci
+				case "EcsLocation":
+					e = ci
+				}
 			}
-			switch name {
-			case "ResolverLocation":
-				res = ci
-			case "EcsLocation":
-				ecsCall = ci
-			}
+		}
+		if r != nil && e != nil {
+			res, ecsCall, fn = r, e, cand
+			break
 		}
 	}
 	if res == nil || ecsCall == nil {
